@@ -75,6 +75,19 @@ pub mod verif_api {
         crate::beatree::verif_total_needed_pages(value_size)
     }
 
+    /// Drive the real asynchronous overflow reader over `file` (only read requests are sent to
+    /// it) with the leaf cell `cell`: `None` submits the next request, `Some(i)` delivers the
+    /// completion of request `i` carrying `pages[i]`. Returns the result of every submit and the
+    /// value once complete.
+    pub fn async_overflow_read(
+        file: std::fs::File,
+        cell: &[u8],
+        pages: &[Vec<u8>],
+        schedule: &[Option<usize>],
+    ) -> (Vec<Option<usize>>, Option<Vec<u8>>) {
+        crate::beatree::verif_async_read(file, cell, pages, schedule)
+    }
+
     /// Segment size of the rollback logs opened on this thread from now on (`None`: the default).
     pub fn set_rollback_segment_size(size: Option<u64>) {
         crate::rollback::VERIF_SEGMENT_SIZE.with(|c| c.set(size));
